@@ -973,6 +973,53 @@ example : formatList [[97], [], [98, 44, 99]] = [97, 44, 32, 44, 32, 98, 44, 99]
 /-- a `str` handed to such a property is an iterable of its characters -/
 example : formatList ([97, 98, 99].map (fun c => [c])) = [97, 44, 32, 98, 44, 32, 99] := by decide
 
+theorem strMembers_map_str (l : List Str) : strMembers (l.map Item.str) = some l := by
+  induction l with
+  | nil => rfl
+  | cons a t ih => simp [strMembers, ih]
+
+theorem strMembers_some (t : List Item) (l : List Str) (h : strMembers t = some l) : t = l.map Item.str := by
+  induction t generalizing l with
+  | nil => simp [strMembers] at h; subst h; rfl
+  | cons a t ih =>
+    cases a with
+    | int i => simp [strMembers] at h
+    | str s =>
+      simp only [strMembers, Option.map_eq_some_iff] at h
+      obtain ⟨l', hl', rfl⟩ := h
+      simp [ih l' hl']
+
+/-- **`header_value_items_join`**: an iterable handed to cache_control / vary stores exactly what the LIST of the items it yields
+    gives: the members joined by ", " when all of them are str, and otherwise the join raises (TypeError) and nothing is stored -/
+theorem header_value_items_join (t : List Item) :
+    (∀ l : List Str, t = l.map Item.str → formatItems t = some (formatList l)) ∧
+    (∀ s, formatItems t = some s → ∃ l : List Str, t = l.map Item.str ∧ s = formatList l) ∧
+    (formatItems t = none ↔ ∃ i, Item.int i ∈ t) := by
+  refine ⟨?_, ?_, ?_⟩
+  · intro l hl; subst hl; simp [formatItems, strMembers_map_str]
+  · intro s hs
+    simp only [formatItems, Option.map_eq_some_iff] at hs
+    obtain ⟨l, hl, rfl⟩ := hs
+    exact ⟨l, strMembers_some t l hl, rfl⟩
+  · induction t with
+    | nil => simp [formatItems, strMembers]
+    | cons a t ih =>
+      cases a with
+      | int i => simp [formatItems, strMembers]
+      | str s =>
+        simp only [formatItems, strMembers, Option.map_map, Option.map_eq_none_iff] at ih ⊢
+        simp [ih]
+
+example : formatItems [.str [97], .str [98, 99]] = some [97, 44, 32, 98, 99] := by decide
+example : formatItems [.str [97], .int 5] = none := by decide
+example : formatItems [] = some [] := by decide
+
+/-- on the store: `resp.vary = <iterable>` / `resp.cache_control = <iterable>` either stores the join of the str members or raises
+    and stores nothing -/
+theorem assign_items (nfkd : Str → Str) (r : Hd.Resp String) (t : List Item) :
+    assign nfkd .vary r (some (.tuple t)) = (formatItems t).map (fun s => Hd.propSet r "vary" (toS s)) ∧
+    assign nfkd .cacheControl r (some (.tuple t)) = (formatItems t).map (fun s => Hd.propSet r "cache-control" (toS s)) := ⟨rfl, rfl⟩
+
 theorem natDec_digits (n : Nat) : ∀ c ∈ natDec n, 48 ≤ c ∧ c ≤ 57 := by
   intro c hc
   unfold natDec at hc
